@@ -2,6 +2,7 @@ package main
 
 import (
 	"vharness/c06"
+	"vharness/c09"
 	"vharness/c15"
 	"vharness/vrt"
 )
@@ -16,5 +17,6 @@ func add(pkg string, m map[string]func(*vrt.Ctx)) {
 
 func init() {
 	add("c06", c06.Harnesses)
+	add("c09", c09.Harnesses)
 	add("c15", c15.Harnesses)
 }
